@@ -1,6 +1,6 @@
 """C06 - applying the computed difference reaches the target (structural clauses)."""
 import json, os
-import cover, guards, C05
+import cover, guards, lib, C05
 from mir import callee_of, op_place, pl_local, proj_fields
 
 STATE = "sozu_command_lib::state::ConfigState"
@@ -59,6 +59,7 @@ def run(F, chk):
                 rb.violation(key, diff.where(), "ConfigState::diff never constructs RequestType::%s, the %s verb for objects created by %s" % (need, why, V))
     sort_order_rule(F, chk)
     whole_listener_comparison_rule(F, chk)
+    upsert_replaces_rule(F, chk)
     # ---------------- R-C06-c --------------------------------------------------
     rc = chk.rule("R-C06-c", "T12", "the key pairing backends across the two states contains id and address", floor=2)
     n = 0
@@ -153,3 +154,27 @@ def whole_listener_comparison_rule(F, chk):
             r.violation(key, b.where(bi), "diff compares a locally modified copy of the %s (field(s) %s overwritten before the test): a listener that differs only in %s is reported as unchanged and no request is emitted for it" % (ty, m[0][1], m[0][1]))
         else:
             r.ok(key, sites[0][0].where(sites[0][1]), "%d whole-value comparison(s), operands unmodified" % len(sites))
+
+
+def upsert_replaces_rule(F, chk):
+    """R-C06-f: diff encodes `cluster X changed` as one AddCluster(target value) and relies on AddCluster REPLACING the
+    stored cluster.  That only reaches the target if the value add_cluster stores is the request's value: nothing read
+    from the previously stored entry may flow into it (a field `kept` from the old value is a difference diff believes
+    it has removed)."""
+    import alias
+    r = chk.rule("R-C06-f", "T12", "AddCluster stores the requested cluster, not a merge with the stored one", floor=1)
+    b = lib.flat(F, F.body(STATE + "::add_cluster"))
+    r.fn(b.path)
+    sites = [s_ for s_ in alias.field_touch(b, alias.Origins(b), STATE, "clusters")
+             if s_["kind"] == "call" and s_["direct"] and s_["callee"].endswith("::insert")]
+    if not r.require(sites, "add_cluster: no insertion into ConfigState.clusters found"):
+        return
+    for i, s_ in enumerate(sites):
+        t = b.blocks[s_["bb"]]["t"]
+        val = t["args"][-1]
+        sl = guards.slice_of_operand(b, val)
+        key = "%s|clusters.insert#%d value comes from the request only" % (b.path, i)
+        if any(a == STATE and f == "clusters" for a, f in sl["fields"]):
+            r.violation(key, b.where(s_["bb"]), "the cluster stored by add_cluster depends on the previously stored entry (a value read from self.clusters flows into it): AddCluster is no longer a replacement, so the diff's `re-add the changed cluster` does not reach the target state")
+        else:
+            r.ok(key, b.where(s_["bb"]), "the inserted value has no data dependency on self.clusters")
